@@ -411,3 +411,30 @@ package device
 //@   ensures wf(d) && tableOK(d)
 //@   ensures [C01] old(Inv(d)) ==> Inv(d)
 //@   modifies d.keyTracker[_], d.actionTracker[_], d.analogNoteTracker[_], d.lastAnalogValue[_][_], d.ccZeroed[_], d.octave, d.semitone, d.channel, d.mapping, d.ccLearning, out, outLen, sounding, d.externalNoteTracker, heap("map[byte]map[byte]bool"), heap("map[byte]bool")
+
+// ---- event loop
+
+// what the kernel delivers: key events are press/release/repeat, and a press is of a key that is up (alternation)
+//@ pred envEvent(d *Device, ie *input.InputEvent) :=
+//@   ie != nil && (ie.Event.Type == evdev.EV_KEY ==> (ie.Event.Value == 0 || ie.Event.Value == 1 || ie.Event.Value == 2)
+//@                  && (ie.Event.Value == 1 ==> !has(d.keyTracker, ie.Event.Code)))
+
+//@ func (*Device).processEvent
+//@   requires wf(d) && tableOK(d) && event != nil
+//@   requires event.Event.Type == evdev.EV_KEY ==> event.Event.Value == 0 || event.Event.Value == 1 || event.Event.Value == 2
+//@   ensures wf(d) && tableOK(d)
+//@   ensures [C01] old(Inv(d)) && old(envEvent(d, event)) ==> Inv(d)
+//@   safety [C01]
+//@   modifies d.keyTracker[_], d.actionTracker[_], d.noteTracker[_], d.activeNotesCounter[_][_], d.analogNoteTracker[_], d.lastAnalogValue[_][_], d.ccZeroed[_], d.octave, d.semitone, d.channel, d.mapping, d.ccLearning, d.multiNote, heap("[]int"), heap("*[1]int"), out, outLen, sounding, sigs, d.externalNoteTracker, heap("map[byte]map[byte]bool"), heap("map[byte]bool")
+
+// C01, second sentence: when the event stream ends (at any moment: the loop invariant holds after every prefix),
+// every note still tracked is released before processing ends, so nothing is left sounding at the receiver.
+//@ func (*Device).ProcessEvents
+//@   requires wf(d) && tableOK(d) && Inv(d)
+//@   assume env envEvent(d, recv)
+//@   ensures [C01] empty(d.noteTracker) && empty(d.analogNoteTracker)
+//@   ensures [C01] forall ch byte, n byte :: !sounding[ch][n]
+//@   loop 1 invariant [C01] wf(d) && tableOK(d) && Inv(d)
+//@   loop 2 invariant [C01] wf(d) && InvCore(d) && (forall k evdev.EvCode :: visited(k) ==> !has(d.noteTracker, k))
+//@   loop 3 invariant [C01] wf(d) && InvCore(d) && empty(d.noteTracker) && (forall s string :: visited(s) ==> !has(d.analogNoteTracker, s))
+//@   safety [C01]
